@@ -25,60 +25,14 @@ const (
 	pIdle = 200
 	pCS1  = 201
 	pCS2  = 202
-	pRel  = 203
+	pMeth = 203 // inside a Go method of the lock, about to perform the shared access of node (meth, node)
 	pDone = 204
 )
 
-// goModel holds what the SSA of the three Spinlock methods contributes.
+// goModel holds the compiled Go bodies of the three Spinlock methods.
 type goModel struct {
-	attempts uint64 // Acquire: second argument of archAcquireSpinlock
-	swapVal  uint64 // TryToAcquire: value swapped in
-	cmpVal   uint64 // TryToAcquire: success iff old == cmpVal
-	cmpEq    bool   // TryToAcquire compares with == (false: !=)
-	relVal   uint64 // Release: value stored
-	funcs    []string
-}
-
-func constOf(v ssa.Value) (uint64, bool) {
-	c, ok := v.(*ssa.Const)
-	if !ok || c.Value == nil || c.Value.Kind() != constant.Int {
-		return 0, false
-	}
-	u, ok := constant.Uint64Val(c.Value)
-	return u, ok
-}
-
-func isStateAddr(v ssa.Value) bool {
-	fa, ok := v.(*ssa.FieldAddr)
-	if !ok {
-		return false
-	}
-	_, isParam := fa.X.(*ssa.Parameter)
-	return isParam && fa.Field == 0
-}
-
-func onlyCall(fn *ssa.Function) (*ssa.Call, []ssa.Instruction, error) {
-	if len(fn.Blocks) != 1 {
-		return nil, nil, fmt.Errorf("%s: expected a single basic block, found %d", fn, len(fn.Blocks))
-	}
-	var call *ssa.Call
-	var rest []ssa.Instruction
-	for _, in := range fn.Blocks[0].Instrs {
-		switch x := in.(type) {
-		case *ssa.Call:
-			if call != nil {
-				return nil, nil, fmt.Errorf("%s: more than one call", fn)
-			}
-			call = x
-		case *ssa.FieldAddr, *ssa.DebugRef:
-		default:
-			rest = append(rest, in)
-		}
-	}
-	if call == nil {
-		return nil, nil, fmt.Errorf("%s: no call found", fn)
-	}
-	return call, rest, nil
+	meth  [3]*method // 0 Acquire, 1 TryToAcquire, 2 Release
+	funcs []string
 }
 
 func loadGoModel(kernelDir string) (*goModel, error) {
@@ -98,113 +52,54 @@ func loadGoModel(kernelDir string) (*goModel, error) {
 	if typ == nil {
 		return nil, fmt.Errorf("type Spinlock not found")
 	}
-	method := func(name string) *ssa.Function {
-		ms := prog.MethodSets.MethodSet(typesPtr(typ.Type()))
-		for i := 0; i < ms.Len(); i++ {
-			if ms.At(i).Obj().Name() == name {
-				return prog.MethodValue(ms.At(i))
-			}
-		}
-		return nil
-	}
 	m := &goModel{}
-	// Acquire
-	acq := method("Acquire")
-	if acq == nil {
-		return nil, fmt.Errorf("Spinlock.Acquire not found")
-	}
-	call, rest, err := onlyCall(acq)
-	if err != nil {
-		return nil, err
-	}
-	callee := call.Common().StaticCallee()
-	if callee == nil || callee.Name() != "archAcquireSpinlock" || len(call.Common().Args) != 2 || !isStateAddr(call.Common().Args[0]) {
-		return nil, fmt.Errorf("Acquire: expected archAcquireSpinlock(&l.state, const), found %s", call)
-	}
-	var ok bool
-	if m.attempts, ok = constOf(call.Common().Args[1]); !ok {
-		return nil, fmt.Errorf("Acquire: attempts argument is not a constant")
-	}
-	for _, in := range rest {
-		if _, isRet := in.(*ssa.Return); !isRet {
-			return nil, fmt.Errorf("Acquire: unsupported instruction %s", in)
+	for i, name := range []string{"Acquire", "TryToAcquire", "Release"} {
+		var fn *ssa.Function
+		ms := prog.MethodSets.MethodSet(typesPtr(typ.Type()))
+		for k := 0; k < ms.Len(); k++ {
+			if ms.At(k).Obj().Name() == name {
+				fn = prog.MethodValue(ms.At(k))
+			}
 		}
-	}
-	// TryToAcquire
-	try := method("TryToAcquire")
-	if try == nil {
-		return nil, fmt.Errorf("Spinlock.TryToAcquire not found")
-	}
-	call, rest, err = onlyCall(try)
-	if err != nil {
-		return nil, err
-	}
-	callee = call.Common().StaticCallee()
-	if callee == nil || callee.String() != "sync/atomic.SwapUint32" || !isStateAddr(call.Common().Args[0]) {
-		return nil, fmt.Errorf("TryToAcquire: expected atomic.SwapUint32(&l.state, const), found %s", call)
-	}
-	if m.swapVal, ok = constOf(call.Common().Args[1]); !ok {
-		return nil, fmt.Errorf("TryToAcquire: swapped value is not a constant")
-	}
-	sawCmp, sawRet := false, false
-	for _, in := range rest {
-		switch x := in.(type) {
-		case *ssa.BinOp:
-			if x.X != ssa.Value(call) || (x.Op != token.EQL && x.Op != token.NEQ) {
-				return nil, fmt.Errorf("TryToAcquire: unsupported comparison %s", x)
-			}
-			if m.cmpVal, ok = constOf(x.Y); !ok {
-				return nil, fmt.Errorf("TryToAcquire: comparison with a non-constant")
-			}
-			m.cmpEq = x.Op == token.EQL
-			sawCmp = true
-		case *ssa.Return:
-			if len(x.Results) != 1 {
-				return nil, fmt.Errorf("TryToAcquire: unexpected return")
-			}
-			if _, isBin := x.Results[0].(*ssa.BinOp); !isBin {
-				return nil, fmt.Errorf("TryToAcquire: returns something other than the comparison")
-			}
-			sawRet = true
-		default:
-			return nil, fmt.Errorf("TryToAcquire: unsupported instruction %s", in)
+		if fn == nil {
+			return nil, fmt.Errorf("Spinlock.%s not found", name)
 		}
-	}
-	if !sawCmp || !sawRet {
-		return nil, fmt.Errorf("TryToAcquire: comparison/return not found")
-	}
-	// Release
-	rel := method("Release")
-	if rel == nil {
-		return nil, fmt.Errorf("Spinlock.Release not found")
-	}
-	call, rest, err = onlyCall(rel)
-	if err != nil {
-		return nil, err
-	}
-	callee = call.Common().StaticCallee()
-	if callee == nil || callee.String() != "sync/atomic.StoreUint32" || !isStateAddr(call.Common().Args[0]) {
-		return nil, fmt.Errorf("Release: expected atomic.StoreUint32(&l.state, const), found %s", call)
-	}
-	if m.relVal, ok = constOf(call.Common().Args[1]); !ok {
-		return nil, fmt.Errorf("Release: stored value is not a constant")
-	}
-	for _, in := range rest {
-		if _, isRet := in.(*ssa.Return); !isRet {
-			return nil, fmt.Errorf("Release: unsupported instruction %s", in)
+		cm, err := compileMethod(fn)
+		if err != nil {
+			return nil, err
 		}
+		m.meth[i] = cm
+		m.funcs = append(m.funcs, fn.String())
 	}
-	m.funcs = []string{acq.String(), try.String(), rel.String(), "kernel/sync.archAcquireSpinlock (spinlock_amd64.s)"}
+	m.funcs = append(m.funcs, "kernel/sync.archAcquireSpinlock (spinlock_amd64.s)")
 	return m, nil
 }
+
+var _ = constant.Int
+var _ = token.EQL
 
 // ---------- transition system ----------
 
 type tstate struct {
-	pc, k          *smt.Term // BV8, BV8
-	bx, cx         *smt.Term
-	zf             *smt.Term
-	tmp            *smt.Term
+	pc, k      *smt.Term // BV8, BV8
+	bx, cx     *smt.Term
+	zf         *smt.Term
+	tmp        *smt.Term
+	meth, node *smt.Term    // BV8: which method / which node of it the thread is in
+	r          [maxSlots]*smt.Term // results of earlier atomic operations of the current method
+	hold       *smt.Term    // Bool: between a successful acquire and the return of Release
+	wrote      *smt.Term    // Bool: the critical section's store has happened, Release has not returned
+	dirty      *smt.Term    // Bool: the current method call changed the lock word
+}
+
+func iteTS(c *smt.Ctx, cond *smt.Term, a, b tstate) tstate {
+	r := tstate{pc: c.Ite(cond, a.pc, b.pc), k: c.Ite(cond, a.k, b.k), bx: c.Ite(cond, a.bx, b.bx), cx: c.Ite(cond, a.cx, b.cx),
+		zf: c.Ite(cond, a.zf, b.zf), tmp: c.Ite(cond, a.tmp, b.tmp), meth: c.Ite(cond, a.meth, b.meth), node: c.Ite(cond, a.node, b.node),
+		hold: c.Ite(cond, a.hold, b.hold), wrote: c.Ite(cond, a.wrote, b.wrote), dirty: c.Ite(cond, a.dirty, b.dirty)}
+	for i := range r.r {
+		r.r[i] = c.Ite(cond, a.r[i], b.r[i])
+	}
+	return r
 }
 
 type gstate struct {
@@ -233,8 +128,13 @@ func (s *system) freshState(tag string) gstate {
 	gs := gstate{lock: c.Var(32, "lock_"+tag), counter: c.Var(32, "counter_"+tag), done: c.Var(32, "done_"+tag)}
 	for t := 0; t < s.T; t++ {
 		p := fmt.Sprintf("t%d_%s", t, tag)
-		gs.th = append(gs.th, tstate{pc: c.Var(8, "pc_"+p), k: c.Var(8, "k_"+p), bx: c.Var(32, "bx_"+p), cx: c.Var(32, "cx_"+p),
-			zf: c.Var(0, "zf_"+p), tmp: c.Var(32, "tmp_"+p)})
+		ts := tstate{pc: c.Var(8, "pc_"+p), k: c.Var(8, "k_"+p), bx: c.Var(32, "bx_"+p), cx: c.Var(32, "cx_"+p),
+			zf: c.Var(0, "zf_"+p), tmp: c.Var(32, "tmp_"+p), meth: c.Var(8, "meth_"+p), node: c.Var(8, "node_"+p),
+			hold: c.Var(0, "hold_"+p), wrote: c.Var(0, "wrote_"+p), dirty: c.Var(0, "dirty_"+p)}
+		for i := range ts.r {
+			ts.r[i] = c.Var(32, fmt.Sprintf("r%d_%s", i, p))
+		}
+		gs.th = append(gs.th, ts)
 	}
 	return gs
 }
@@ -370,10 +270,7 @@ func (s *system) factsHold(ts tstate) *smt.Term {
 	return ok
 }
 
-func (s *system) holder(ts tstate) *smt.Term {
-	c := s.c
-	return c.Or(c.Eq(ts.pc, c.Const(8, pCS1)), c.Or(c.Eq(ts.pc, c.Const(8, pCS2)), c.Eq(ts.pc, c.Const(8, pRel))))
-}
+func (s *system) holder(ts tstate) *smt.Term { return ts.hold }
 
 func (s *system) opIsAcquire(t int, k *smt.Term) *smt.Term {
 	c := s.c
@@ -393,87 +290,217 @@ func (s *system) step(gs gstate, t int) (gstate, *smt.Term) {
 		cond                *smt.Term
 		ts                  tstate
 		lock, counter, done *smt.Term
+		tryBad              *smt.Term
 	}
 	var ups []upd
-	tryBad := c.False()
 	pcIs := func(v int) *smt.Term { return c.Eq(ts.pc, c.Const(8, uint64(v))) }
 	c8 := func(v int) *smt.Term { return c.Const(8, uint64(v)) }
 	one8 := c.Const(8, 1)
-	fromLeaves := func(cond *smt.Term, ls []leaf) {
-		for _, l := range ls {
-			n := ts
-			n.bx, n.cx, n.zf = l.r.bx, l.r.cx, l.r.zf
-			if l.pc == pcRet {
-				n.pc = c8(pCS1)
-			} else {
-				n.pc = c8(l.pc)
-			}
-			ups = append(ups, upd{c.And(cond, l.cond), n, l.lock, gs.counter, gs.done})
+	ff := c.False()
+
+	// ret: method m returns value v (nil for void) in thread state n with shared state (lock, done)
+	ret := func(cond *smt.Term, m int, v *smt.Term, n tstate, lock *smt.Term) {
+		switch m {
+		case 0: // Acquire returned: the caller now holds the lock
+			n.hold, n.pc = c.True(), c8(pCS1)
+			ups = append(ups, upd{cond, n, lock, gs.counter, gs.done, ff})
+		case 1: // TryToAcquire
+			a := n
+			a.hold, a.pc = c.True(), c8(pCS1)
+			ups = append(ups, upd{c.And(cond, v), a, lock, gs.counter, gs.done, ff})
+			b := n
+			b.k, b.pc = c.Bin("bvadd", n.k, one8), c8(pIdle)
+			ups = append(ups, upd{c.And(cond, c.Not(v)), b, lock, gs.counter, gs.done, n.dirty})
+		case 2: // Release returned
+			n.hold, n.wrote = ff, ff
+			n.k, n.pc = c.Bin("bvadd", n.k, one8), c8(pIdle)
+			ups = append(ups, upd{cond, n, lock, gs.counter, c.Bin("bvadd", gs.done, c.Const(32, 1)), ff})
 		}
 	}
+	// follow: after node nd of method m completed (thread state n, lock value), go to the next node or return
+	var follow func(cond *smt.Term, m int, nd *mnode, n tstate, lock *smt.Term)
+	follow = func(cond *smt.Term, m int, nd *mnode, n tstate, lock *smt.Term) {
+		if len(nd.edges) == 0 {
+			g.fail("%s: node without successor", s.gm.meth[m].name)
+			return
+		}
+		taken := ff
+		for _, e := range nd.edges {
+			ec := c.And(cond, c.And(c.Not(taken), evalM(c, e.cond, n.r[:])))
+			taken = c.Or(taken, evalM(c, e.cond, n.r[:]))
+			if e.to.kind == "ret" {
+				var v *smt.Term
+				if e.to.ret != nil {
+					v = evalM(c, e.to.ret, n.r[:])
+					if v.W != 0 {
+						v = c.Not(c.Eq(v, c.Const(32, 0)))
+					}
+				} else {
+					v = c.True()
+				}
+				ret(ec, m, v, n, lock)
+				continue
+			}
+			nn := n
+			nn.pc, nn.meth, nn.node = c8(pMeth), c8(m), c8(e.to.id)
+			ups = append(ups, upd{ec, nn, lock, gs.counter, gs.done, ff})
+		}
+	}
+	// perform: the shared access of node nd of method m, from thread state n with lock word lockIn
+	perform := func(at *smt.Term, m int, nd *mnode, ts tstate, lockIn *smt.Term) {
+		n := ts
+		lock := lockIn
+		switch nd.kind {
+		case "start", "ret":
+			return
+		case "load":
+			n.r[nd.slot] = lockIn
+		case "store":
+			lock = evalM(c, nd.a1, ts.r[:])
+		case "swap":
+			n.r[nd.slot] = lockIn
+			lock = evalM(c, nd.a1, ts.r[:])
+		case "cas":
+			ok := c.Eq(lockIn, evalM(c, nd.a1, ts.r[:]))
+			n.r[nd.slot] = c.BoolToBV(ok, 32)
+			lock = c.Ite(ok, evalM(c, nd.a2, ts.r[:]), lockIn)
+		case "add":
+			lock = c.Bin("bvadd", lockIn, evalM(c, nd.a1, ts.r[:]))
+			n.r[nd.slot] = lock
+		case "asm":
+			// thread-local prologue of archAcquireSpinlock up to its first shared access, then that access
+			var pro []leaf
+			r := regs{ax: c.Var(64, "ax_entry"), bx: ts.bx, cx: ts.cx, zf: ts.zf}
+			g.attempts = evalM(c, nd.a1, ts.r[:])
+			g.run(0, r, lockIn, c.True(), false, 0, &pro)
+			var ls []leaf
+			for _, l := range pro {
+				if l.pc == pcRet {
+					ls = append(ls, l)
+					continue
+				}
+				g.run(l.pc, l.r, l.lock, l.cond, true, 0, &ls)
+			}
+			for _, l := range ls {
+				nn := ts
+				nn.meth, nn.node = c8(m), c8(nd.id)
+				nn.bx, nn.cx, nn.zf = l.r.bx, l.r.cx, l.r.zf
+				nn.dirty = c.Or(ts.dirty, c.Not(c.Eq(l.lock, lockIn)))
+				if l.pc == pcRet {
+					follow(c.And(at, l.cond), m, nd, nn, l.lock)
+				} else {
+					nn.pc = c8(l.pc)
+					ups = append(ups, upd{c.And(at, l.cond), nn, l.lock, gs.counter, gs.done, ff})
+				}
+			}
+			return
+		}
+		n.dirty = c.Or(ts.dirty, c.Not(c.Eq(lock, lockIn)))
+		follow(at, m, nd, n, lock)
+	}
+	// enter: begin executing method m. With fold, the thread-local entry is folded into the first shared access
+	// of the method (one macro-step); without, the thread parks in front of that access.
+	enter := func(cond *smt.Term, m int, n tstate, fold bool) {
+		n.dirty = ff
+		if !fold {
+			follow(cond, m, s.gm.meth[m].root, n, gs.lock)
+			return
+		}
+		taken := ff
+		for _, e := range s.gm.meth[m].root.edges {
+			ec := c.And(cond, c.And(c.Not(taken), evalM(c, e.cond, n.r[:])))
+			taken = c.Or(taken, evalM(c, e.cond, n.r[:]))
+			if e.to.kind == "ret" {
+				var v *smt.Term = c.True()
+				if e.to.ret != nil {
+					v = evalM(c, e.to.ret, n.r[:])
+					if v.W != 0 {
+						v = c.Not(c.Eq(v, c.Const(32, 0)))
+					}
+				}
+				ret(ec, m, v, n, gs.lock)
+				continue
+			}
+			perform(ec, m, e.to, n, gs.lock)
+		}
+	}
+
 	// idle: start the next lock operation (or finish)
 	finished := c.Not(c.Cmp("bvult", ts.k, c8(s.M)))
 	{
 		n := ts
 		n.pc = c8(pDone)
-		ups = append(ups, upd{c.And(pcIs(pIdle), finished), n, gs.lock, gs.counter, gs.done})
+		ups = append(ups, upd{c.And(pcIs(pIdle), finished), n, gs.lock, gs.counter, gs.done, ff})
 	}
 	isAcq := s.opIsAcquire(t, ts.k)
-	{
-		// Acquire: local prologue up to the first shared access
-		var ls []leaf
-		r := regs{ax: c.Var(64, "ax_entry"), bx: ts.bx, cx: ts.cx, zf: ts.zf}
-		g.run(0, r, gs.lock, c.True(), false, 0, &ls)
-		fromLeaves(c.And(pcIs(pIdle), c.And(c.Not(finished), isAcq)), ls)
-	}
-	{
-		// TryToAcquire: one atomic swap
-		cond := c.And(pcIs(pIdle), c.And(c.Not(finished), c.Not(isAcq)))
-		old := gs.lock
-		newLock := c.Const(32, s.gm.swapVal)
-		succ := c.Eq(old, c.Const(32, s.gm.cmpVal))
-		if !s.gm.cmpEq {
-			succ = c.Not(succ)
+	enter(c.And(pcIs(pIdle), c.And(c.Not(finished), isAcq)), 0, ts, true)
+	enter(c.And(pcIs(pIdle), c.And(c.Not(finished), c.Not(isAcq))), 1, ts, true)
+
+	// inside a Go method: perform the shared access of the current node
+	for m := 0; m < 3; m++ {
+		for _, nd := range s.gm.meth[m].nodes {
+			at := c.And(pcIs(pMeth), c.And(c.Eq(ts.meth, c8(m)), c.Eq(ts.node, c8(nd.id))))
+			perform(at, m, nd, ts, gs.lock)
 		}
-		n := ts
-		n.pc = c8(pCS1)
-		ups = append(ups, upd{c.And(cond, succ), n, newLock, gs.counter, gs.done})
-		f := ts
-		f.k = c.Bin("bvadd", ts.k, one8)
-		f.pc = c8(pIdle)
-		ups = append(ups, upd{c.And(cond, c.Not(succ)), f, newLock, gs.counter, gs.done})
-		tryBad = c.And(c.And(cond, c.Not(succ)), c.Not(c.Eq(newLock, old)))
 	}
-	// assembly macro-steps
+	// assembly macro-steps (the thread is inside an "asm" node of some method)
 	for _, p := range s.bounds {
 		var ls []leaf
 		g.run(p, s.regsAt(p, ts), gs.lock, c.True(), true, 0, &ls)
-		fromLeaves(pcIs(p), ls)
+		for _, l := range ls {
+			nn := ts
+			nn.bx, nn.cx, nn.zf = l.r.bx, l.r.cx, l.r.zf
+			nn.dirty = c.Or(ts.dirty, c.Not(c.Eq(l.lock, gs.lock)))
+			if l.pc != pcRet {
+				nn.pc = c8(l.pc)
+				ups = append(ups, upd{c.And(pcIs(p), l.cond), nn, l.lock, gs.counter, gs.done, ff})
+				continue
+			}
+			for m := 0; m < 3; m++ {
+				for _, nd := range s.gm.meth[m].nodes {
+					if nd.kind == "asm" {
+						follow(c.And(c.And(pcIs(p), l.cond), c.And(c.Eq(ts.meth, c8(m)), c.Eq(ts.node, c8(nd.id)))), m, nd, nn, l.lock)
+					}
+				}
+			}
+		}
 	}
-	// critical section and release
+	// critical section, then Release
 	{
 		n := ts
 		n.pc, n.tmp = c8(pCS2), gs.counter
-		ups = append(ups, upd{pcIs(pCS1), n, gs.lock, gs.counter, gs.done})
-		n2 := ts
-		n2.pc = c8(pRel)
-		ups = append(ups, upd{pcIs(pCS2), n2, gs.lock, c.Bin("bvadd", ts.tmp, c.Const(32, 1)), gs.done})
-		n3 := ts
-		n3.pc, n3.k = c8(pIdle), c.Bin("bvadd", ts.k, one8)
-		ups = append(ups, upd{pcIs(pRel), n3, c.Const(32, s.gm.relVal), gs.counter, c.Bin("bvadd", gs.done, c.Const(32, 1))})
+		ups = append(ups, upd{pcIs(pCS1), n, gs.lock, gs.counter, gs.done, ff})
+	}
+	{
+		// the store of the critical section, then the (thread-local) entry into Release
+		save := gs.counter
+		gs2 := gs
+		gs2.counter = c.Bin("bvadd", ts.tmp, c.Const(32, 1))
+		n := ts
+		n.wrote = c.True()
+		before := len(ups)
+		gsSaved := gs
+		gs = gs2
+		enter(pcIs(pCS2), 2, n, false)
+		gs = gsSaved
+		for i := before; i < len(ups); i++ {
+			ups[i].counter = gs2.counter
+		}
+		_ = save
 	}
 	// default: stutter (done threads, unknown pcs)
 	ns := gs
 	ns.th = append([]tstate(nil), gs.th...)
 	cur := ts
 	lock, counter, done := gs.lock, gs.counter, gs.done
+	tryBad := ff
 	for i := len(ups) - 1; i >= 0; i-- {
 		u := ups[i]
-		cur = tstate{pc: c.Ite(u.cond, u.ts.pc, cur.pc), k: c.Ite(u.cond, u.ts.k, cur.k), bx: c.Ite(u.cond, u.ts.bx, cur.bx),
-			cx: c.Ite(u.cond, u.ts.cx, cur.cx), zf: c.Ite(u.cond, u.ts.zf, cur.zf), tmp: c.Ite(u.cond, u.ts.tmp, cur.tmp)}
+		cur = iteTS(c, u.cond, u.ts, cur)
 		lock = c.Ite(u.cond, u.lock, lock)
 		counter = c.Ite(u.cond, u.counter, counter)
 		done = c.Ite(u.cond, u.done, done)
+		tryBad = c.Or(tryBad, c.And(u.cond, u.tryBad))
 	}
 	ns.th[t] = cur
 	ns.lock, ns.counter, ns.done = lock, counter, done
@@ -498,13 +525,16 @@ func (s *system) safe(gs gstate) *smt.Term {
 		allDone = c.And(allDone, c.Eq(ts.pc, c.Const(8, pDone)))
 	}
 	ok = c.And(ok, c.Implies(allDone, c.Eq(gs.counter, gs.done))) // no lost update
+	// a task holds the lock while the lock word reads free: any further try-acquire or acquire would succeed
+	// (two holders with one more task, which the bound on tasks may not have room for)
+	ok = c.And(ok, c.Implies(c.Eq(gs.lock, c.Const(32, 0)), c.Eq(s.countHolders(gs), c.Const(8, 0))))
 	return ok
 }
 
 func (s *system) validPC(ts tstate) *smt.Term {
 	c := s.c
 	v := c.False()
-	for _, p := range append(append([]int(nil), s.bounds...), pIdle, pCS1, pCS2, pRel, pDone) {
+	for _, p := range append(append([]int(nil), s.bounds...), pIdle, pCS1, pCS2, pMeth, pDone) {
 		v = c.Or(v, c.Eq(ts.pc, c.Const(8, uint64(p))))
 	}
 	return v
@@ -522,10 +552,40 @@ func (s *system) inv(gs gstate) *smt.Term {
 		ok = c.And(ok, s.validPC(ts))
 		ok = c.And(ok, s.factsHold(ts))
 		ok = c.And(ok, c.Not(c.Cmp("bvult", c.Const(8, uint64(s.M)), ts.k)))
-		ok = c.And(ok, c.Implies(c.Eq(ts.pc, c.Const(8, pCS2)), c.Eq(ts.tmp, gs.counter)))
 		busy := c.Not(c.Or(c.Eq(ts.pc, c.Const(8, pIdle)), c.Eq(ts.pc, c.Const(8, pDone))))
 		ok = c.And(ok, c.Implies(busy, c.Cmp("bvult", ts.k, c.Const(8, uint64(s.M)))))
-		stored = c.Bin("bvadd", stored, c.Ite(c.Eq(ts.pc, c.Const(8, pRel)), c.Const(32, 1), c.Const(32, 0)))
+		ok = c.And(ok, c.Implies(c.Eq(ts.pc, c.Const(8, pCS2)), c.Eq(ts.tmp, gs.counter)))
+		// where a thread is and whether it holds the lock
+		inMeth := c.Not(c.Or(c.Or(c.Eq(ts.pc, c.Const(8, pIdle)), c.Eq(ts.pc, c.Const(8, pDone))), c.Or(c.Eq(ts.pc, c.Const(8, pCS1)), c.Eq(ts.pc, c.Const(8, pCS2)))))
+		inRelease := c.And(inMeth, c.Eq(ts.meth, c.Const(8, 2)))
+		inCS := c.Or(c.Eq(ts.pc, c.Const(8, pCS1)), c.Eq(ts.pc, c.Const(8, pCS2)))
+		ok = c.And(ok, c.Eq(ts.hold, c.Or(inCS, inRelease)))
+		ok = c.And(ok, c.Eq(ts.wrote, inRelease))
+		// a valid (method, node) pair while inside a method; assembly only inside an asm node
+		validNode := c.False()
+		asmNode := c.False()
+		for m := 0; m < 3; m++ {
+			for _, nd := range s.gm.meth[m].nodes {
+				here := c.And(c.Eq(ts.meth, c.Const(8, uint64(m))), c.Eq(ts.node, c.Const(8, uint64(nd.id))))
+				if nd.kind != "start" && nd.kind != "ret" {
+					validNode = c.Or(validNode, here)
+				}
+				if nd.kind == "asm" {
+					asmNode = c.Or(asmNode, here)
+				}
+			}
+		}
+		ok = c.And(ok, c.Implies(inMeth, validNode))
+		// no shared access of the current method has happened yet at its first node: the lock word is untouched by it
+		first := c.False()
+		for m := 0; m < 3; m++ {
+			for _, e := range s.gm.meth[m].root.edges {
+				first = c.Or(first, c.And(c.Eq(ts.meth, c.Const(8, uint64(m))), c.Eq(ts.node, c.Const(8, uint64(e.to.id)))))
+			}
+		}
+		ok = c.And(ok, c.Implies(c.And(c.Eq(ts.pc, c.Const(8, pMeth)), first), c.Not(ts.dirty)))
+		ok = c.And(ok, c.Implies(c.And(inMeth, c.Not(c.Eq(ts.pc, c.Const(8, pMeth)))), asmNode))
+		stored = c.Bin("bvadd", stored, c.Ite(ts.wrote, c.Const(32, 1), c.Const(32, 0)))
 	}
 	ok = c.And(ok, c.Eq(gs.counter, c.Bin("bvadd", gs.done, stored)))
 	return ok
@@ -536,6 +596,7 @@ func (s *system) initial(gs gstate) *smt.Term {
 	ok := c.And(c.Eq(gs.lock, c.Const(32, 0)), c.And(c.Eq(gs.counter, c.Const(32, 0)), c.Eq(gs.done, c.Const(32, 0))))
 	for _, ts := range gs.th {
 		ok = c.And(ok, c.And(c.Eq(ts.pc, c.Const(8, pIdle)), c.Eq(ts.k, c.Const(8, 0))))
+		ok = c.And(ok, c.And(c.Not(ts.hold), c.And(c.Not(ts.wrote), c.Not(ts.dirty))))
 	}
 	return ok
 }
@@ -580,7 +641,7 @@ func newSystem(kernelDir string, T, M int) (*system, error) {
 		return nil, err
 	}
 	c := smt.NewCtx()
-	g := &gen{c: c, af: af, lockAddr: c.Var(64, "LOCKADDR"), attempts: c.Const(32, gm.attempts), yieldFn: c.Var(64, "YIELDFN")}
+	g := &gen{c: c, af: af, lockAddr: c.Var(64, "LOCKADDR"), attempts: c.Var(32, "ATTEMPTS"), yieldFn: c.Var(64, "YIELDFN")}
 	s := &system{g: g, gm: gm, c: c, T: T, M: M}
 	for t := 0; t < T; t++ {
 		var row []*smt.Term
@@ -616,8 +677,8 @@ func (s *system) pcName(v uint64) string {
 		return "holding:read-counter"
 	case pCS2:
 		return "holding:write-counter"
-	case pRel:
-		return "holding:release"
+	case pMeth:
+		return "in-lock-method"
 	case pDone:
 		return "done"
 	}
